@@ -58,6 +58,10 @@ func (h *JsonHandler) WithAttrs(attrs []slog.Attr) Handler {
 
 	h2 := h.clone()
 	for _, a := range attrs {
+		// an empty group is omitted, as slog.Record.AddAttrs does for attributes passed at the call site
+		if a.Value.Kind() == slog.KindGroup && len(a.Value.Group()) == 0 {
+			continue
+		}
 		if appendJsonAttr(&h2.preformatted, a, h2.addSep, h2.Options.colorful) {
 			h2.addSep = true
 		}
